@@ -35,6 +35,7 @@ def main():
     wt = sys.argv[1].rstrip("/")
     prop = sys.argv[2]
     scale = float(sys.argv[sys.argv.index("--scale") + 1]) if "--scale" in sys.argv else 1.0
+    tag = sys.argv[sys.argv.index("--tag") + 1] if "--tag" in sys.argv else ""
     mdir = os.path.join(wt, "mutants")
     rows = []
     ev = os.path.join(VERIF, "evidence", prop + ".json")
@@ -84,7 +85,8 @@ def main():
                                                              (cls[0][:80] if cls else "")))
             sys.stdout.flush()
             if confirmed or "--keep-all" in sys.argv:
-                dest = os.path.join(VERIF, "seeded", "%s-%s" % (prop, name))
+                meta["round"] = tag or "r1"
+                dest = os.path.join(VERIF, "seeded", "%s-%s%s" % (prop, (tag + "-") if tag else "", name))
                 os.makedirs(dest, exist_ok=True)
                 shutil.copy(patch, os.path.join(dest, "patch.diff"))
                 open(os.path.join(dest, "demo.py"), "w").write(open(demo).read().replace(wt, "/repo"))
